@@ -38,6 +38,9 @@ CHECKS = {
  "C09": (MC, "exhaustive enumeration of handshake interleavings and loss points plus explicit-state BFS with state matching over open/deliver/close/send-error histories of 3 connections on 2 datapath ids, on real Connection/Nexus objects fed spec-encoded bytes by a scripted switch",
          "(a) the handshake script with up to 2 (quick) / 3 (thorough) asynchronous messages inserted at every position, (b) connection loss after every prefix, (c) every registry/life-cycle state reachable within depth 9 / 12 of {open, deliver-next, close, send-error} on three connections; ConnectionUp/Down counts and order, deferred port-status order, registry contents and sendToDPID target are compared with a reference life-cycle after every step.",
          "Reference life-cycle in mc/refs/c09_lifecycle.py; port-status before the features reply and ConnectionDown for never-announced connections are not constrained (DESIGN.md).", "DESIGN.md 4 C09"),
+ "C01": (EX, "exhaustive enumeration of a boundary lattice of every OpenFlow 1.0 / Nicira codec object (field values within k deviations of a fingerprint base vector, action and entry lists, every payload length) against an independent transcription of the specification's layouts",
+         "For 95 codec kinds (22 messages, actions, stats request/reply bodies, phy_port, queues, match, nx_* messages/actions, NXM entries with and without mask): header length == bytes == len(obj); bytes == reference encoding field by field; unpack_new and the dispatch table consume exactly the length (also before trailing garbage) and return an equal object; re-encoding reproduces the bytes. Exhaustive over the stated finite lattice.",
+         "Trusts mc/refs/ofspec.py (written from the OpenFlow 1.0 specification and nicira-ext.h, sizes checked against OFP_ASSERT values); matches restricted to prerequisite-consistent ones; output.max_len normalisation and all-ones NXM masks treated as documented.", "DESIGN.md 4 C01"),
 }
 
 PENDING_REASON = "check under construction in this round (design in DESIGN.md section 4); not claimed until its harness is committed and silent on the unchanged tree"
